@@ -539,7 +539,8 @@ pub fn replay(report: &Report, input: &Value) -> Result<(), Fail> {
     match out.failure {
         Some(f) => Err(f.fail),
         None if out.diverged => {
-            report.note_inconclusive("the recorded schedule no longer fits the program (the code under test changed its sequence of synchronisation operations, or the tables were larger than in the original run)");
+            crate::explore::REPLAY_INCONCLUSIVE.store(true, std::sync::atomic::Ordering::SeqCst);
+                    report.note_inconclusive("the recorded schedule no longer fits the program (the code under test changed its sequence of synchronisation operations, or the tables were larger than in the original run)");
             Ok(())
         }
         None => Ok(()),
